@@ -129,7 +129,8 @@ BAD_VALUES = {   # violations of represented constraints (or of the integer rang
     "tuple2": [[3], [3, "s", 1], ["s", 3], 3], "tuple1": [[], [1, 2], 3], "tuple3": [[True, "purple", 1.5]],
     "array3": [[1, 2], [1, 2, 3, 4], [1, 2, 300]], "struct": [{}, {"a": "x"}, {"b": "x"}, 5, []],
     "struct_closed": [{"a": 1, "zz": 2}], "struct_nested_default": [{"a": 1}, {"a": 1, "leaf": {}}],
-    "struct_flat": [{"a": 1, "more": 5}], "struct_renamed_flat": [{"a": 1, "more": "x"}, {"displayName": "anon"}],
+    "struct_flat": [{"a": 1, "more": 5}, {"a": "fits the extra map only"}],
+    "struct_renamed_flat": [{"a": 1, "more": "x"}, {"displayName": "anon"}, {"a": 1, "displayName": 5}],
     "struct_renamed_flat_str": [{"displayName": 5}], "struct_ref": [{"s": "only"}], "enum_ref": ["blue"],
     "external": ["Nope", {"N": "x"}, {"S": {}}, {"T": [1]}, {"N": 1, "S": {"x": 1}}],
     "internal": [{"t": "C"}, {"t": "A"}, {"x": 3}], "adjacent": [{"t": "A"}, {"t": "A", "c": "x"}, {"t": "Z", "c": 1}],
